@@ -320,6 +320,8 @@ class Ctx:
     # ---- obligations ---------------------------------------------------------------------
     def check(self, name, goal, info=None):
         """Record the VC  pc ==> goal  and continue under the assumption goal."""
+        if getattr(self, "muted", False):
+            return  # set-up phase of a unit that replays another function first: its obligations belong to that function's unit
         if isinstance(goal, bool):
             goal = z3.BoolVal(goal)
         vc = VC(name, self.axioms + self.pc, goal, self.path_sig(), info=info)
